@@ -1,4 +1,5 @@
 import ProbLogProofs.Lemmas.C17Refute
+import ProbLogProofs.Lemmas.C17RoundTrip
 /-!
 # C17 — the parser is total and printing round-trips (property theorems)
 
@@ -9,7 +10,22 @@ Both are **false** for the current code; the refutations below give the witnesse
 a source text), the `_partial` theorems give the classes for which the statements are proved.
 -/
 namespace ProbLogProofs.C17
-open ProbLogModel.Parser ProbLogModel.Syntax ProbLogModel.Lexer ProbLogModel.Printer
+open ProbLogModel.Parser ProbLogModel.Syntax ProbLogModel.Lexer ProbLogModel.Printer ProbLogModel.PrintTokens
+
+/-- **Round trip, operator-free class** (partial; the full statement `∀ t over the operator table` is refuted below).
+    For every surface term `s` built from variables, numbers, strings, plain/quoted atoms, `[]`, compound terms and
+    lists with an optional `| tail`, nested arbitrarily: the modelled `collapse` (bracket matching, `label_tokens`,
+    `fold`, `_build_operator_free`, the factory) applied to the token list of its printed form returns exactly the term
+    it denotes. `s.valid` only says that the text of every integer token converts to its value (`int()` is not
+    modelled). That `s.toks` *is* the token list of the text printed for `s.tm` is checked by the driver for every
+    generated term of the class (`tokenize (reprTop s.tm ++ ".") = s.toks ++ [end]`, harness obligation). -/
+theorem C17_roundtrip_partial (s : S) (h : s.valid = true) : collapse s.toks = .ok s.tm :=
+  collapse_toks s h
+
+/-- non-vacuity: `f(a, [X, "s" | T], g([]))` is in the class, and its printed text is tokenized to `s.toks` -/
+example : let s : S := .app "f" (.atom "a") [.lst (.var "X") [.str "\"s\""] (some (.var "T")), .app "g" .nil []]
+    s.valid = true ∧ tokenize "f(a,[X, \"s\" | T],g([]))." = .ok (s.toks ++ [tEnd]) := by
+  refine ⟨rfl, rfl⟩
 
 /-- An `Or` as operand of an operator is printed without parentheses: `q(X) :- X = (a;b), true.` -/
 theorem C17_roundtrip_refuted_or_operand :
